@@ -108,7 +108,14 @@ def generate(seed, tier, enlarged=False):
                     del row[rng.choice(ks)]
                 else:
                     row[rng.choice(KEYS)] = rng.randint(0, 3)
-            data.append([t * rng.choice([1, 1, 2]) if False else t, row])
+            data.append([t, row])
+        # distinct times with gaps; a quarter of the histories are not in increasing time order (two runs
+        # sharing one emitter, the later window computed first)
+        times = sorted(rng.sample(range(0, 3 * nrows + 1), nrows))
+        if rng.random() < 0.25:
+            rng.shuffle(times)
+        for j, t in enumerate(times):
+            data[j][0] = t
         c = {'kind': kind, 'data': data, 'rect': not ragged}
         if kind == 'query':
             paths = all_paths(skel)
